@@ -296,6 +296,8 @@ class Analyzer:
                 return lin(self.atom_len({'l': o['pl']['l'], 'p': o['pl']['p'] + ['deref'], 'ty': ''}))
         return None
 
+    LEN_PRESERVING = ('<std::vec::Vec<T, A> as std::ops::DerefMut>::deref_mut', 'std::vec::Vec::<T, A>::as_mut_slice', 'std::vec::Vec::<T, A>::iter_mut',
+                      '<std::vec::Vec<T, A> as std::convert::AsMut<[T]>>::as_mut', 'arrayvec::ArrayVec::<T, CAP>::as_mut_slice', '<arrayvec::ArrayVec<T, CAP> as std::ops::DerefMut>::deref_mut')
     LEN_FNS = ('core::slice::<impl [T]>::len', 'std::vec::Vec::<T, A>::len', 'arrayvec::ArrayVec::<T, CAP>::len', 'core::str::<impl str>::len')
 
     def pure_atom(self, n, exprs, ty=''):
@@ -438,6 +440,8 @@ class Analyzer:
                 if bs in body:
                     if ty.startswith('&mut [') and at.startswith('len:') and body == bs:
                         continue          # a callee cannot change the length of a slice it receives by reference
+                    if at.startswith('len:') and body == bs and callee_name(t) in self.LEN_PRESERVING:
+                        continue          # views a vector as a mutable slice / iterator: elements may change, the length cannot
                     if written is not None:
                         # a callee of this crate: it can only change the fields it (transitively) stores to
                         rest = body.replace(bs, '', 1)
